@@ -12,15 +12,16 @@ PROP = {
         "the server runs WITH a cluster secret; the documented open mode of the cluster interceptor (no secret configured, docs/design/cluster-service-auth.md) is not a finding and is not exercised",
         "victim state = every memdb table row carrying the project's id (read through the unexported memdb handle by reflection) + the channel manager's per-project channel list; mongo backend, caches and session TTL timestamps are outside the dump",
         "requests are sent by a hand-written Connect-protocol client (harness/eng_access.go) so that arbitrary header combinations can be presented",
+        "auth webhooks are two httptest endpoints inside the harness (one per project, verdict by token, call counters); the verdict cache TTL is set to 4s through backend.Config.AuthWebhookCacheTTL, a cold cache is produced by Cache.AuthWebhook.Purge(), real expiry is waited for once per configuration in the thorough tier only",
     ],
-    "level_text": "Lean: frame theorem for the model's request execution over every store and request (a request resolves to one project; every other project is unchanged; the decision depends on that project's state only), decision table total over the procedure list re-extracted from api/yorkie/v1/v1connect on every run, guard obligations over the call lists re-extracted from server/rpc/*_server.go and the interceptors, foreign-denied / no-credential-denied / existence-hidden over the whole request matrix by kernel evaluation. Tie: the same matrix (every procedure x credential kind x target kind x UseDefaultProject on/off) sent to a real in-process server with two projects using identical keys, decision compared line by line with the model and the victim projects' memdb state compared byte-wise before/after every request.",
+    "level_text": "Lean: frame theorem for the model's request execution over every store and request (a request resolves to one project; every other project is unchanged; the decision depends on that project's state only), decision table total over the procedure list re-extracted from api/yorkie/v1/v1connect on every run, guard obligations over the call lists re-extracted from server/rpc/*_server.go and the interceptors, foreign-denied / no-credential-denied / existence-hidden over the whole request matrix by kernel evaluation. Auth webhook: webhook_cache_transparent over every sequence of requests and evictions for any number of projects (a verdict is always the own project's webhook's, fresh or cached within the TTL), the cache-key expression re-extracted from server/rpc/auth/webhook.go, witness for the key without the project. Tie: the same matrix (every procedure x credential kind x target kind x UseDefaultProject on/off) sent to a real in-process server with two projects using identical keys, decision compared line by line with the model and the victim projects' memdb state compared byte-wise before/after every request; plus, with an auth webhook endpoint per project, every Yorkie procedure x home project x token in both orders inside the cache TTL and with a cold cache, decision and own-webhook call count compared with the model.",
     "level_note": "The full statements hold of the current tree. They were false of the pinned tree at three lookups by bare id (YorkieService/GetRevision; DetachChannel, RefreshChannel), found by this check and repaired in /repo (ddb0dfd3, 3821028d); the model follows the repaired handlers, getRevision_fixed_witness / sessionScope_fixed_witness document the old variants. Error *texts* are not modelled (oracle only); the text differences and the printed owning-project id the oracle found were repaired by /repo 863f1a42, no known finding is left. One documented text difference about project names/ids (membership vs existence) is counted, not reported – see not_modelled.",
     "technique": "Lean 4 proof (frame theorem + kernel-evaluated decision matrix over T-gen tables) + exhaustive differential replay against a real server",
     "partial": [],
     "not_modelled": [
         "text of error messages: not in the Lean model, oracle only. The oracle compares the text for a foreign id with the text for a nowhere-existing id and scans every response for identifiers of a victim project; since /repo 863f1a42 any difference for clients / documents / revisions / sessions and any printed foreign project id is a plain violation",
         "documented behaviour, counted but not reported (distribution key `documented:project-membership-vs-existence-text`): on the admin service a signed-up user can tell a project he is not a member of (`project member not found`, ErrMemberNotFound) from a project that does not exist (`<name|id>: project not found`, ErrProjectNotFound). That concerns project names / ids, which are globally unique (CreateProject answers already_exists) and which C13 (`clients and documents of another project`) does not cover; the status code is not_found in both cases",
-        "auth webhook (`auth.VerifyAccess` is a no-op without a configured webhook; its presence in every handler is a T-gen obligation only)",
+        "auth webhook: modelled as a per-project verdict function plus the verdict cache keyed as the code keys it (webhook_cache_transparent; the key expression is a T-gen fact). The webhook lines run every Yorkie procedure with the own ids only; attributes (document / channel keys, verbs) are the shared names, the webhook's verdict depends on the token only; retries / back-off of pkg/webhook and the 401-is-not-cached rule are exercised (token `none`) but a webhook that changes its verdict over time is covered by the theorem only, not by the harness",
         "CORS origin check of the Yorkie interceptor; MCP and auth HTTP handlers (not part of the three service descriptors)",
         "malformed payloads (every request of the matrix is well-formed; validation order is not modelled)",
     ],
